@@ -166,7 +166,10 @@ unique_ptr<DiscreteDistributionInterface> BppODiscreteDistributionFormat::readDi
     if (args.find("n") == args.end())
       throw Exception("Missing argument 'n' (number of classes) in " + distName
             + " distribution");
-    unsigned int nbClasses = TextTools::to<unsigned int>(args["n"]);
+    int n = TextTools::toInt(args["n"]); // raises if not an integer
+    if (n < 1)
+      throw Exception("The number of classes 'n' must be at least 1 in " + distName + " distribution");
+    unsigned int nbClasses = static_cast<unsigned int>(n);
 
     if (distName == "Gamma")
     {
